@@ -217,6 +217,68 @@ Proof.
   ok_with; lia.
 Qed.
 
+(* ---- subs (no size guard): bounded by the bytes the reader sees ---- *)
+Lemma rd_n_state body w s : let s' := snd (rd_n body w s) in
+  (r_err s' = true /\ r_pos s' = r_pos s) \/
+  (r_err s' = false /\ r_err s = false /\ r_pos s' = r_pos s + w /\ r_pos s' <= lenN body).
+Proof.
+  unfold rd_n. destruct (r_err s) eqn:E; cbn [snd]; [left; auto|].
+  destruct (lenN body <? r_pos s + w) eqn:L; cbn [snd r_err r_pos]; [left; auto|]. bools. right. repeat split; auto.
+Qed.
+
+Lemma rd_loop_state body cnt e s : let s' := rd_loop body cnt e s in
+  r_err s' = true \/
+  (r_err s' = false /\ r_err s = false /\ r_pos s' = r_pos s + cnt * e /\ (r_pos s <= lenN body -> r_pos s' <= lenN body)).
+Proof.
+  unfold rd_loop. destruct (r_err s) eqn:E; [left; exact E|].
+  destruct ((e =? 0) || (cnt =? 0)) eqn:Z.
+  - right. rewrite E. repeat split; auto. apply orb_true_iff in Z. destruct Z; bools; subst; lia.
+  - destruct (lenN body <? r_pos s + cnt * e) eqn:L; cbn [r_err r_pos]; [left; reflexivity|]. bools.
+    right. repeat split; auto.
+Qed.
+
+Lemma subs_loop_bounded body esz cnt : 8 <= esz -> forall fuel i s al it,
+  r_pos s <= lenN body -> (lenN body - r_pos s) / 6 < N.of_nat fuel ->
+  exists ok n al' it', subs_loop body fuel esz cnt i s al it = Ok (ok, n, al', it') /\
+    al' <= al + 6 * (lenN body - r_pos s) + 786420 /\ it' <= it + (lenN body - r_pos s) + 65536.
+Proof.
+  intros He. induction fuel as [|f IH]; intros i s al it Hp Hf; [lia|].
+  cbn [subs_loop]. destruct (cnt <=? i); [do 4 eexists; split; [reflexivity|lia]|].
+  pose proof (rd_n_state body 4 s) as A. destruct (rd_n body 4 s) as [d s1]. cbn [snd] in A.
+  pose proof (rd_n_state body 2 s1) as B. pose proof (rd_n_lt body 2 s1) as Lt.
+  destruct (rd_n body 2 s1) as [ssc s2]. cbn [snd fst] in B, Lt. change (256 ^ 2) with 65536 in Lt.
+  pose proof (rd_loop_state body ssc esz s2) as C. cbn zeta in C.
+  destruct (r_err (rd_loop body ssc esz s2)) eqn:E.
+  - do 4 eexists; split; [reflexivity|]. split; lia.
+  - destruct C as [C|(_ & C1 & C2 & C3)]; [congruence|].
+    destruct B as [(B1 & _)|(_ & B1 & B2 & B3)]; [congruence|].
+    destruct A as [(A1 & _)|(_ & A1 & A2 & A3)]; [congruence|].
+    specialize (C3 B3).
+    assert (Hd : lenN body - r_pos (rd_loop body ssc esz s2) + 6 <= lenN body - r_pos s) by nia.
+    destruct (IH (i + 1) (rd_loop body ssc esz s2) (al + 12 * ssc + 32) (it + 1 + ssc) C3) as (ok & n & al' & it' & -> & Ha & Hi).
+    { assert ((lenN body - r_pos (rd_loop body ssc esz s2)) / 6 + 1 <= (lenN body - r_pos s) / 6); [|lia].
+      replace ((lenN body - r_pos (rd_loop body ssc esz s2)) / 6 + 1) with ((lenN body - r_pos (rd_loop body ssc esz s2) + 1 * 6) / 6)
+        by (rewrite N.div_add by discriminate; reflexivity).
+      apply N.div_le_mono; [discriminate|lia]. }
+    do 4 eexists; split; [reflexivity|]. split; nia.
+Qed.
+
+Lemma rd_n_pos body w s : r_pos s <= lenN body -> r_pos (snd (rd_n body w s)) <= lenN body.
+Proof. intros H. destruct (rd_n_state body w s) as [(_ & ->)|(_ & _ & _ & H')]; assumption. Qed.
+
+Lemma alloc_subs_bounded hs hl body : bounded (alloc_subs hs hl body) 6 786420 1 65536 (lenN body).
+Proof.
+  unfold alloc_subs.
+  assert (P1 := rd_n_pos body 4 rd0 ltac:(cbn; lia)). destruct (rd_n body 4 rd0) as [vf s1]. cbn [snd] in P1.
+  assert (Hp := rd_n_pos body 4 s1 P1). destruct (rd_n body 4 s1) as [cnt s2]. cbn [snd] in Hp.
+  set (esz := if version_of vf =? 1 then 10 else 8).
+  assert (He : 8 <= esz) by (unfold esz; destruct (version_of vf =? 1); lia).
+  destruct (subs_loop_bounded body esz cnt He (S (length body)) 0 s2 0 0 Hp) as (ok & n & al & it & -> & Ha & Hi).
+  { assert ((lenN body - r_pos s2) / 6 <= lenN body - r_pos s2) by (apply N.div_le_upper_bound; lia).
+    unfold lenN in *. lia. }
+  unfold bounded. eexists; split; [reflexivity|]. cbn [o_alloc o_iters]. split; lia.
+Qed.
+
 Lemma alloc_elst_bounded hs hl body : bounded (alloc_elst hs hl body) 2 0 12 0 hs.
 Proof.
   unfold alloc_elst. destruct (rd_n body 4 rd0) as [vf s1]. set (v := version_of vf).
@@ -321,7 +383,7 @@ Proof. eexists. split; [vm_compute; reflexivity|]. split; reflexivity. Qed.
 
 (* ---- box level ---- *)
 Lemma alloc_table_bounded t p hs hl body : hs <> 34359738376 ->
-  bounded (alloc_table t p hs hl body) 4 1048560 1 65535 (hs + lenN body).
+  bounded (alloc_table t p hs hl body) 6 1048560 1 65536 (hs + lenN body).
 Proof.
   intros Hn. assert (hs <= hs + lenN body) by lia. assert (lenN body <= hs + lenN body) by lia.
   destruct t; cbn [alloc_table].
@@ -338,6 +400,7 @@ Proof.
   - destruct (alloc_saio_bounded hs hl body) as (o & -> & ? & ?). exists o. split; [reflexivity|]. split; lia.
   - destruct (alloc_senc_bounded p hs hl body) as (o & -> & ? & ?). exists o. split; [reflexivity|]. split; lia.
   - destruct (alloc_sbgp_bounded hs hl body) as (o & -> & ? & ?). exists o. split; [reflexivity|]. split; lia.
+  - destruct (alloc_subs_bounded hs hl body) as (o & -> & ? & ?). exists o. split; [reflexivity|]. split; lia.
   - destruct (alloc_elst_bounded hs hl body) as (o & -> & ? & ?). exists o. split; [reflexivity|]. split; lia.
   - destruct (alloc_tfra_bounded hs hl body) as (o & -> & ? & ?). exists o. split; [reflexivity|]. split; lia.
   - destruct (alloc_sidx_bounded hs hl body) as (o & -> & ? & ?). exists o. split; [reflexivity|]. split; lia.
@@ -353,13 +416,13 @@ Lemma lenN_firstn {A} n (l : list A) : lenN (firstn n l) <= lenN l.
 Proof. unfold lenN. rewrite firstn_length. lia. Qed.
 
 Definition bounded_box (r : res aout) (n : N) : Prop :=
-  exists o, r = Ok o /\ o_alloc o <= 8 * n + 1048560 /\ o_iters o <= 2 * n + 65535.
+  exists o, r = Ok o /\ o_alloc o <= 12 * n + 1048560 /\ o_iters o <= 2 * n + 65536.
 
 Lemma bounded_box_rej n : bounded_box rej n.
 Proof. exists (mkO false 0 0 0). cbn. repeat split; lia. Qed.
 
 (* DecodeBoxSR / DecodeBox on ANY byte string whose box type is one of the modelled table boxes: the prologue
-   returns, allocates at most 8 * len + 1048560 bytes and loops at most 2 * len + 65535 times *)
+   returns, allocates at most 12 * len + 1048560 bytes and loops at most 2 * len + 65536 times *)
 Lemma alloc_box_sr_bounded bs : lenN bs < 34359738376 -> match alloc_box_sr bs with
                                 | Some r => bounded_box r (lenN bs)
                                 | None => True end.
